@@ -23,12 +23,13 @@ fn c12_replay(inp: &str, outp: &str) {
     for cell in &cells {
         let fam = cell["fam"].as_str().unwrap_or("std");
         let out = match fam {
-            "std" => {
+            "std" => vh_core::catch(|| {
                 let h = c12::cell_header(cell);
                 let o = c12::check_std(&h);
                 let mis = c12::conformance(cell, &o.obs);
                 json!({"conf": mis.is_empty(), "mis": mis, "pv": o.pv, "obs": o.obs, "hdr": common::hex(&h.bytes()[..4])})
-            }
+            })
+            .unwrap_or_else(|msg| json!({"conf": false, "mis": [{"field": "harness", "spec": "interpretable result", "real": msg}], "pv": [], "obs": Value::Null})),
             _ => json!({"conf": false, "mis": [{"field": "fam", "spec": fam, "real": "unknown"}], "pv": [], "obs": Value::Null}),
         };
         w.write(&out);
@@ -41,8 +42,8 @@ fn c11_replay(inp: &str, outp: &str) {
     let mut w = NdjsonWriter::create(outp);
     for case in &cases {
         let out = match case["kind"].as_str().unwrap_or("cell") {
-            "cell" => c11::replay_cell(case),
-            "walk" => c11::replay_walk(case),
+            "cell" | "walk" => vh_core::catch(|| if case["kind"] == "walk" { c11::replay_walk(case) } else { c11::replay_cell(case) })
+                .unwrap_or_else(|msg| json!({"conf": false, "mis": [{"field": "harness", "spec": "interpretable result", "real": msg}], "pv": []})),
             k => json!({"conf": false, "mis": [{"field": "kind", "spec": k, "real": "unknown"}], "pv": []}),
         };
         w.write(&out);
@@ -51,7 +52,9 @@ fn c11_replay(inp: &str, outp: &str) {
 }
 
 fn main() {
-    quiet_panics();
+    if std::env::var("VERIF_PANIC_TRACE").is_err() {
+        quiet_panics();
+    }
     let a: Vec<String> = std::env::args().collect();
     match (a.get(1).map(|s| s.as_str()), a.len()) {
         (Some("c12-replay"), 4) => c12_replay(&a[2], &a[3]),
